@@ -1,3 +1,7 @@
 #!/bin/bash
-# unit check against a clean scratch worktree (usable while /repo is temporarily patched by a seed run)
-cd /verif && VP_REPO=${VP_REPO:-/tmp/wt/repo_clean} VP_GEN=/tmp/wt/gen2 ./check --unit "$@"
+# development helper (no registered command uses it): unit check against a clean scratch worktree, so that it can run while
+# /repo is temporarily patched by a seed run. Create the worktree first: git -C /repo worktree add --detach /tmp/wt/repo_clean HEAD
+# (and remove it afterwards: git -C /repo worktree remove --force /tmp/wt/repo_clean). Without it, the unit is checked against /repo.
+R=${VP_REPO:-/tmp/wt/repo_clean}; [ -d "$R" ] || R=/repo
+mkdir -p /tmp/wt/gen2
+cd /verif && VP_REPO=$R VP_GEN=/tmp/wt/gen2 ./check --unit "$@"
